@@ -321,4 +321,5 @@ MUTANTS = [
     ('movzx-r16-empty-slot', 'miasmx/arch/ia32_sem.py', "    if b.get_size() == a.get_size():\n        # (66 0F B7 /r: both operands are words)\n        return [ExprAff(a, b)]\n", "", 'C11.D3'),
     ('sidt-const32', 'miasmx/arch/ia32_sem.py', "ExprInt16(0x8245)))", "ExprInt32(0x8245)))", 'C11.D3'),
     ('into-shared-empty-list', 'miasmx/arch/ia32_sem.py', "def into(info):\n    return []\n", "no_effect = []\ndef into(info):\n    return no_effect\n", 'C11.D6'),
+    ('mmx-scale-typed-by-admode', 'miasmx/arch/ia32_sem.py', "        int_cast = tab_afs_int[[x86_afs.u32, x86_afs.u16][admode == x86_afs.u16]]", "        int_cast = tab_afs_int[admode]", 'C11.D3'),
 ]
